@@ -52,6 +52,9 @@ class InstanceManager:
     def _get_instance_state(self, instance_uuid):
         instance = self._instances[instance_uuid]
         session_state = copy.deepcopy(instance['instance'].session_state)
+        if session_state is None:
+            # no session has been begun on this instance (yet)
+            return InstanceState(None, instance_uuid, instance["time"], instance["timeout"], None)
         session_state["lock"] = False
         return InstanceState(session_state, instance_uuid, instance["time"], instance["timeout"], session_state["step"])
             
@@ -147,7 +150,8 @@ class InstanceManager:
 
     def reconstruct_instance(self,instance_uuid,timeout,time,session_state):
         instance = self._make_bptk()
-        instance._set_state(session_state)
+        if session_state is not None:
+            instance._set_state(session_state)
 
         instance_data = {
             "instance": instance,
